@@ -309,3 +309,28 @@ func splitPair(p string) string {
 	}
 	return strings.TrimSpace(p[i:])
 }
+
+// solveUnitNoPortfolio: one incremental z3 run, no fall-back (exploratory sweeps).
+func solveUnitNoPortfolio(u *Unit, cfg *SolverCfg) {
+	sc := u.Script
+	if sc == nil || len(sc.obs) == 0 {
+		return
+	}
+	sc.timeoutMs = cfg.TimeoutS * 1000
+	f := tmpFile(cfg, sc.renderIncremental())
+	out, _ := runSolverN(solvers[0], f, cfg.TimeoutS, len(sc.obs))
+	os.Remove(f)
+	var results []string
+	for _, l := range strings.Split(out, "\n") {
+		switch strings.TrimSpace(l) {
+		case "sat", "unsat", "unknown", "timeout":
+			results = append(results, strings.TrimSpace(l))
+		}
+	}
+	for i, ob := range sc.obs {
+		ob.Result = "error"
+		if i < len(results) {
+			ob.Result = results[i]
+		}
+	}
+}
